@@ -101,6 +101,16 @@ CHECKS = {
         "case what the rules prescribe with rights re-examined (shared with C03). Validity of the result then rests on C01/C03; panic "
         "freedom of the parsers is C12. ADDED: the safe make API reaches no assertion, panic or unsafe precondition (abstract interpreter, 13 roots); the semilegality validator and the legality checker are exact on abstract boards / as boolean set functions; compile-fail witnesses for the unsafe constructors and the private raw board.",
    note=TB + "The validity of resulting positions is not proved independently of C01/C03/C05."),
+ "C08": dict(cat="other", ref="DESIGN.md §3 C08 / §9.8",
+   technique="explicit-state exploration of the transition systems extracted from the effect trees of format_cells and parse_cells (all inputs at every step, states merged) against reference writer/reader automata; exhaustive abstract evaluation of the field-level writer and reader models over the finite field domain; tabulated letter tables",
+   text="Static: format_cells is bisimilar to the reference FEN piece-placement writer (squares a8..h1 each once, empty runs as digits 1-8 "
+        "flushed before a piece and at the rank end, '/' between ranks, letters by Cell::as_char) and parse_cells to the reference reader "
+        "(all reachable file/rank/position states x all 256 bytes and end of text); the two references are inverse on every rank pattern; "
+        "for both sides x 16 castling-rights values x 9 en-passant marks the model of Display for RawBoard writes the six fields in order "
+        "with the letters the rules give them and the model of FromStr reads the same values back; Board's text is its raw board's and "
+        "Board::from_str validates RawBoard::from_str's result. Trusted: u16 formatting/parsing and str::split. Not decided: stability of "
+        "parse-format-parse on accepted texts Display never writes, agreement with a reader other than the transcribed FEN grammar.",
+   note=TB + "The models are the effect trees of the instantiated MIR; nothing of the library is executed."),
  "C09": dict(cat="other", ref="DESIGN.md §3 C09",
    technique="path rules on SAN conversion (validated or filter-searched results only); exhaustive tabulation of searcher/detector tables; data-provenance rule on constructed moves",
    text="Static: parse soundness - san::Data::into_move returns Ok(mv) only after mv.validate(b) or from a searcher fed once by the "
@@ -161,11 +171,7 @@ CHECKS = {
 }
 
 NOT_YET = {}
-NA = {
- "C08": "FEN round trip is a value-level equality over all positions/strings; its only structural sub-clauses (parser totality, "
-        "letter tables, en-passant rank normalisation) are decided under C12/C11/C20; no further necessary condition is visible "
-        "in the shape of the code (see DESIGN.md §4)",
-}
+NA = {}
 
 def main():
     props = [json.loads(l) for l in open(os.path.join(V, "properties.jsonl"))]
